@@ -360,7 +360,11 @@ impl Interp {
         match r {
             Ok(Ok(Some(v))) => Outcome::Val(obs_of(&v)),
             Ok(Ok(None)) => Outcome::Val(Obs::NoValue),
-            Ok(Err(e)) => Outcome::Err(classify(&e), e.location),
+            // a reported error includes its message: the binary and the REPL print it
+            Ok(Err(e)) => match guarded(|| format!("{}", e)) {
+                Ok(_) => Outcome::Err(classify(&e), e.location),
+                Err(p) => Outcome::Panic(format!("while formatting the error message: {}", p)),
+            },
             Err(p) => Outcome::Panic(p),
         }
     }
